@@ -240,11 +240,13 @@ package config
 //@   loop 1 invariant L1 [C02,C03,C05]: 0 <= rangeindex + 1 && rangeindex + 1 <= len(names) && len(ifis) == rangeindex + 1 && (ifis == nil || fresh(ifis)) && (hasName != hasNames) && (hasName ==> len(names) == 1 && names[0] == ifi.Name) && (hasNames ==> names == ifi.Names)
 //@   loop 1 invariant L2 [C02,C03,C05]: forall(k, 0, len(ifis), ifaceResultOK(ifis[k], names[k], ifi)) && (rangeindex + 1 > 0 ==> !(ifi.Monitor && ifi.Advertise)) && len(names) >= 1
 //@   loop 1 invariant L3 [C01]: forall(a, 0, len(ifis), forall(b, a + 1, len(ifis), sepPlugins(ifis[a].Plugins, ifis[b].Plugins)))
+//@   loop 1 invariant L4 [C01]: forall(k, 0, len(ifis), freshPlugins(ifis[k].Plugins))
 //@   ensures E1 [C02]: result1 == nil ==> ((ifi.Name != "") != (len(ifi.Names) > 0)) && !(ifi.Monitor && ifi.Advertise)
 //@   ensures E2 [C02]: (ifi.Name != "") == (len(ifi.Names) > 0) ==> result1 != nil
 //@   ensures E3 [C02,C03,C05,C01]: result1 == nil ==> len(result0) == ite(ifi.Name != "", 1, len(ifi.Names)) && forall(k, 0, len(result0), ifaceResultOK(result0[k], ite(ifi.Name != "", ifi.Name, ifi.Names[k]), ifi))
 //@   ensures E4 [C02]: result1 != nil ==> result0 == nil
 //@   ensures E5 [C01]: result1 == nil ==> forall(a, 0, len(result0), forall(b, a + 1, len(result0), sepPlugins(result0[a].Plugins, result0[b].Plugins)))
+//@   ensures E6 [C01]: result1 == nil ==> forall(k, 0, len(result0), freshPlugins(result0[k].Plugins))
 //@   opt safety [C02]
 //@   opt frame [C02]
 
@@ -256,13 +258,16 @@ package config
 //@   loop 1 invariant P1 [C02,C03]: 0 <= rangeindex1 + 1 && rangeindex1 + 1 <= len(f.Interfaces) && c != nil && fresh(c) && seen != nil && fresh(seen) && len(f.Interfaces) > 0 && (c.Debug.Address == "" || tcpAddrOK(c.Debug.Address)) && (rangeindex1 + 1 > 0 ==> len(c.Interfaces) >= 1)
 //@   loop 1 invariant P2 [C02,C03,C05,C01]: forall(k, 0, len(c.Interfaces), headerCfgOK(c.Interfaces[k]) && pluginsCfgOK(c.Interfaces[k].Plugins) && (c.Interfaces[k].Advertise ==> validIntervals(c.Interfaces[k].MinInterval, c.Interfaces[k].MaxInterval)) && has(seen, c.Interfaces[k].Name))
 //@   loop 1 invariant P3 [C02]: forall(a, 0, len(c.Interfaces), forall(b, a + 1, len(c.Interfaces), c.Interfaces[a].Name != c.Interfaces[b].Name))
+//@   loop 1 invariant P10 [C01]: forall(a, 0, len(c.Interfaces), forall(b, a + 1, len(c.Interfaces), sepPlugins(c.Interfaces[a].Plugins, c.Interfaces[b].Plugins)))
 //@   loop 2 invariant P4 [C02,C03]: 0 <= rangeindex2 + 1 && rangeindex2 + 1 <= len(ifis) && 0 <= rangeindex1 + 1 && rangeindex1 + 1 < len(f.Interfaces) && c != nil && fresh(c) && seen != nil && fresh(seen) && len(f.Interfaces) > 0 && (c.Debug.Address == "" || tcpAddrOK(c.Debug.Address)) && (rangeindex1 + 1 > 0 ==> len(c.Interfaces) >= 1) && len(ifis) >= 1
 //@   loop 2 invariant P5 [C02,C03,C05,C01]: forall(k, 0, len(c.Interfaces), headerCfgOK(c.Interfaces[k]) && pluginsCfgOK(c.Interfaces[k].Plugins) && (c.Interfaces[k].Advertise ==> validIntervals(c.Interfaces[k].MinInterval, c.Interfaces[k].MaxInterval)) && has(seen, c.Interfaces[k].Name))
 //@   loop 2 invariant P6 [C02,C03,C05,C01]: forall(k, 0, len(ifis), headerCfgOK(ifis[k]) && pluginsCfgOK(ifis[k].Plugins) && (ifis[k].Advertise ==> validIntervals(ifis[k].MinInterval, ifis[k].MaxInterval)))
 //@   loop 2 invariant P7 [C02]: forall(a, 0, len(c.Interfaces), forall(b, a + 1, len(c.Interfaces), c.Interfaces[a].Name != c.Interfaces[b].Name)) && forall(a, 0, rangeindex2 + 1, forall(b, a + 1, rangeindex2 + 1, ifis[a].Name != ifis[b].Name)) && forall(a, 0, len(c.Interfaces), forall(b, 0, rangeindex2 + 1, c.Interfaces[a].Name != ifis[b].Name))
+//@   loop 2 invariant P9 [C01]: forall(a, 0, len(c.Interfaces), forall(b, a + 1, len(c.Interfaces), sepPlugins(c.Interfaces[a].Plugins, c.Interfaces[b].Plugins))) && forall(a, 0, len(ifis), forall(b, a + 1, len(ifis), sepPlugins(ifis[a].Plugins, ifis[b].Plugins))) && forall(a, 0, len(c.Interfaces), forall(b, 0, len(ifis), sepPlugins(c.Interfaces[a].Plugins, ifis[b].Plugins)))
 //@   loop 2 invariant P8 [C02]: forall(b, 0, rangeindex2 + 1, has(seen, ifis[b].Name))
 //@   ensures E1 [C02]: result1 == nil ==> result0 != nil && len(result0.Interfaces) >= 1 && forall(a, 0, len(result0.Interfaces), forall(b, a + 1, len(result0.Interfaces), result0.Interfaces[a].Name != result0.Interfaces[b].Name))
 //@   ensures E2 [C02,C03,C05,C01,C17]: result1 == nil ==> forall(k, 0, len(result0.Interfaces), headerCfgOK(result0.Interfaces[k]) && pluginsCfgOK(result0.Interfaces[k].Plugins) && (result0.Interfaces[k].Advertise ==> validIntervals(result0.Interfaces[k].MinInterval, result0.Interfaces[k].MaxInterval)))
 //@   ensures E3 [C02]: result1 == nil ==> (result0.Debug.Address == "" || tcpAddrOK(result0.Debug.Address))
+//@   ensures E5 [C01]: result1 == nil ==> forall(a, 0, len(result0.Interfaces), forall(b, a + 1, len(result0.Interfaces), sepPlugins(result0.Interfaces[a].Plugins, result0.Interfaces[b].Plugins)))
 //@   ensures E4 [C02]: result1 != nil ==> result0 == nil
 //@   opt safety [C02]
